@@ -4,7 +4,7 @@ from .. import env, coq, runner, tables
 
 LEVEL = 'proof'
 META = dict(
-    text='Coq theorems, for every completion schedule, every next_job oracle and every fault sequence (universally quantified lists, proved by invariants and induction): the collector loop never exceeds the concurrency, starts nothing once the budget is used, delivers every completed result exactly once to on_job_result with the right job, never blocks with nothing in flight and halts only when idle and out of work; the stream client routes a response to the waiter of its message id only, completes a submit future only through an event of its own job (its own response, the failure of its stream, its own cancellation, stop()) so that a late reply for a cancelled request completes nobody, hands the response to the current request of a waiting execution to that execution in the same step, never reuses an id, creates the job at most once, returns only that job\'s result, terminates after finitely many retryable faults and surfaces non-retryable errors. The retry decision function is regenerated from _get_retry_request_or_raise/_is_retryable_error on every run; both hand-written models are compared event by event with the implementation under a deterministic driver of the duet scheduler and of an asyncio loop.',
+    text='Coq theorems, for every completion schedule, every next_job oracle and every fault sequence (universally quantified lists, proved by invariants and induction): the collector loop never exceeds the concurrency, starts nothing once the budget is used, delivers every completed result exactly once to on_job_result with the right job, never blocks with nothing in flight and halts only when idle and out of work, and the exception it raises is the failure of one of the jobs; the stream client routes a response to the waiter of its message id only, completes a submit future only through an event of its own job (its own response, the failure of its stream, its own cancellation, stop()) so that a late reply for a cancelled request completes nobody, sends cancel_quantum_job in exactly the steps in which a submit future ends cancelled and cancels a running submit (future cancelled, remote job cancelled) at every cancellation point - cancel() while idle, while a reply of any content or a stream failure of any kind is being delivered to it, stop() -, hands the response to the current request of a waiting execution to that execution in the same step, never reuses an id, creates the job at most once, returns only that job\'s result, terminates after finitely many retryable faults and surfaces non-retryable errors. The retry decision function is regenerated from _get_retry_request_or_raise/_is_retryable_error on every run; both hand-written models are compared event by event with the implementation under a deterministic driver of the duet scheduler and of an asyncio loop.',
     note='Trusted: Coq kernel; the Python drivers in vf/checks/c20.py (fake Sampler, fake Quantum Engine stream and server, hand-driven duet scheduler / asyncio loop, trace printing); vf/tables_c20.py (evaluating the retry functions on the working tree). The duet and asyncio runtimes, the thread hand-off of AsyncioExecutor and the behaviour of the real gRPC layer are driven, not verified: theorems are about the models, the models are tied to the code by the regenerated retry table and by the trace comparison on enumerated/sampled schedules.',
     technique='Rocq/Coq proof over executable Gallina state machines + regenerated decision table + vm_compute trace correspondence under a deterministic event-loop driver',
 )
@@ -12,6 +12,10 @@ META = dict(
 # ======================================================================================================================
 # Collector: driver of the real collect_async under a hand-ticked duet scheduler
 # ======================================================================================================================
+
+
+class _StopDriver(BaseException):
+    """Raised by the driver out of duet.run when the schedule ends while collect() is still waiting."""
 
 
 class _Err(Exception):
@@ -38,7 +42,7 @@ def _tree(rng_bits, jobs):
     return iter(list(jobs))
 
 
-def run_collector(cirq, conc, budget, oracle, chooser, shape_bits=0, pauli=None):
+def run_collector(cirq, conc, budget, oracle, chooser, shape_bits=0, pauli=None, entry='async'):
     """Run Collector.collect_async on a fake sampler.
 
     oracle:  list of answers, each a list of (tag, reps).
@@ -46,7 +50,11 @@ def run_collector(cirq, conc, budget, oracle, chooser, shape_bits=0, pauli=None)
              returns a batch [(index, ('ok', payload) | ('err', eid)), ...] to complete now, or None to stop.
     pauli:   None, or dict(samples_per_term, max_samples_per_job): the collector is then the real cirq.PauliSumCollector
              (an adaptive next_job); its answers are recorded into `oracle` (which must be passed empty) for the model.
-    Returns (trace, status, sched) where sched is the list of batches that were applied."""
+    entry:   'async' = collect_async spawned on a hand-ticked duet scheduler; 'sync' = Collector.collect() (duet.run), the
+             same completions being injected whenever duet.run's scheduler has no ready task.
+    Returns (trace, status, sched, late, n_pending, energy); sched is the list of batches that were applied, status[0] one of
+    halted / waiting / stuck / broken / raised; ('raised', eid, sid, repr): sid names the job whose own exception object the
+    caller received, None if it is no job's exception."""
     import duet
     from duet import impl
     trace = []
@@ -89,6 +97,7 @@ def run_collector(cirq, conc, budget, oracle, chooser, shape_bits=0, pauli=None)
 
     pending = []   # (sid, future) in run_async call order
     payload_of = {}
+    err_objs = {}  # sid -> the exception object the sampler raised for that job
 
     class PCol(cirq.PauliSumCollector):
         """The real PauliSumCollector; only its job objects are re-wrapped so that the trace can name them."""
@@ -141,69 +150,119 @@ def run_collector(cirq, conc, budget, oracle, chooser, shape_bits=0, pauli=None)
                        samples_per_term=pauli['samples_per_term'], max_samples_per_job=pauli['max_samples_per_job'])
     else:
         the_col = Col()
-    sch = impl.Scheduler()
-    main = sch.spawn(the_col.collect_async(Smp(), concurrency=conc, max_total_samples=budget))
-    sched, status = [], None
-    try:
-        while sch.active_tasks:
-            if not sch._ready_tasks._tasks:
-                live = [(s, f) for s, f in pending if not f.done()]
-                if len(live) != len(pending):      # a pending future was cancelled behind our back
-                    status = ('broken', 'future cancelled while the loop is waiting')
-                    break
-                batch = chooser(len(pending))
-                if batch is None:
-                    status = ('waiting',)
-                    break
-                applied = []
-                for n, o in batch:
-                    if n >= len(pending):
-                        continue
-                    sid, f = pending.pop(n)
-                    applied.append((n, o))
-                    trace.append(('done', sid, o))
-                    if o[0] == 'ok':
-                        f.set_result(make_result(f, o[1]))
-                    else:
-                        f.set_exception(_Err(o[1]))
-                sched.append([(n, o) for n, o in batch])
-                if not applied:
-                    if not pending:
-                        status = ('stuck',)        # loop is blocked and nothing is in flight: a lost wake-up
-                        break
+    sched, box = [], dict(status=None)
+
+    def quiescent():
+        """No duet task is ready: complete the chooser's next batch. False = stop driving (box['status'] says why)."""
+        while True:
+            live = [(s, f) for s, f in pending if not f.done()]
+            if len(live) != len(pending):      # a pending future was cancelled behind our back
+                box['status'] = ('broken', 'future cancelled while the loop is waiting')
+                return False
+            batch = chooser(len(pending))
+            if batch is None:
+                box['status'] = ('waiting',)
+                return False
+            applied = []
+            for n, o in batch:
+                if n >= len(pending):
                     continue
-            sch.tick()
-        else:
-            trace.append(('halt',))
-            status = ('halted',)
-    except NeedBranch:
-        for t in list(sch.active_tasks):
-            t.interrupt(None, RuntimeError('driver teardown'))
-        for _ in range(50):
-            if not sch.active_tasks:
-                break
-            try:
-                sch.tick()
-            except BaseException:
-                pass
-        raise
-    except _Err as e:
-        trace.append(('raise', e.eid))
-        status = ('raised', e.eid)
-    except BaseException as e:   # anything else escaping the loop
-        trace.append(('raise', -1))
-        status = ('raised', -1, repr(e))
-    # tear down whatever is still alive (scope interrupts, cancelled futures); nothing may be delivered any more
-    n_before = len(trace)
-    for t in list(sch.active_tasks):
-        t.interrupt(None, RuntimeError('driver teardown'))
-    for _ in range(50):
-        if not sch.active_tasks:
-            break
+                sid, f = pending.pop(n)
+                applied.append((n, o))
+                trace.append(('done', sid, o))
+                if o[0] == 'ok':
+                    f.set_result(make_result(f, o[1]))
+                else:
+                    err_objs[sid] = _Err(o[1])
+                    f.set_exception(err_objs[sid])
+            sched.append([(n, o) for n, o in batch])
+            if applied:
+                return True
+            if not pending:
+                box['status'] = ('stuck',)        # loop is blocked and nothing is in flight: a lost wake-up
+                return False
+
+    def received(e):
+        """what the caller receives: (eid, sid of the job whose own exception object it is, repr)"""
+        owner = [sid for sid, x in err_objs.items() if x is e]
+        eid = e.eid if isinstance(e, _Err) and owner else -1
+        trace.append(('raise', eid))
+        box['status'] = ('raised', eid, owner[0] if owner else None, repr(e))
+
+    if entry == 'sync':
+        # Collector.collect(): duet.run with its own scheduler and teardown; the driver only injects the completions when
+        # that scheduler is about to block (no task ready)
+        tearing = [None]
+
+        class Driven(impl.Scheduler):
+            def tick(self):
+                if tearing[0] is None and self.active_tasks and not self._ready_tasks._tasks:
+                    try:
+                        go = quiescent()
+                    except NeedBranch:
+                        tearing[0] = len(trace)
+                        raise
+                    if not go:
+                        tearing[0] = len(trace)
+                        raise _StopDriver()
+                try:
+                    super().tick()
+                except BaseException:
+                    if tearing[0] is None:
+                        tearing[0] = len(trace)
+                    raise
+
+        saved = impl.Scheduler
+        impl.Scheduler = Driven
         try:
-            sch.tick()
-        except BaseException:
+            the_col.collect(Smp(), concurrency=conc, max_total_samples=budget)
+            trace.append(('halt',))
+            box['status'] = ('halted',)
+        except (NeedBranch, KeyboardInterrupt):
+            raise
+        except _StopDriver:
             pass
+        except BaseException as e:
+            n = tearing[0] if tearing[0] is not None else len(trace)
+            tail = trace[n:]
+            del trace[n:]
+            received(e)
+            trace.extend(tail)
+            tearing[0] = n + 1
+        finally:
+            impl.Scheduler = saved
+        n_before = tearing[0] if tearing[0] is not None else len(trace)
+    else:
+        sch = impl.Scheduler()
+        sch.spawn(the_col.collect_async(Smp(), concurrency=conc, max_total_samples=budget))
+
+        def teardown():
+            for t in list(sch.active_tasks):
+                t.interrupt(None, RuntimeError('driver teardown'))
+            for _ in range(50):
+                if not sch.active_tasks:
+                    break
+                try:
+                    sch.tick()
+                except BaseException:
+                    pass
+        try:
+            while sch.active_tasks:
+                if not sch._ready_tasks._tasks and not quiescent():
+                    break
+                sch.tick()
+            else:
+                trace.append(('halt',))
+                box['status'] = ('halted',)
+        except (NeedBranch, KeyboardInterrupt):
+            teardown()
+            raise
+        except BaseException as e:
+            received(e)
+        # tear down whatever is still alive (scope interrupts, cancelled futures); nothing may be delivered any more
+        n_before = len(trace)
+        teardown()
+    status = box['status']
     late = trace[n_before:]
     del trace[n_before:]
     energy = the_col.estimated_energy() if pauli is not None else None
@@ -263,6 +322,21 @@ def collector_oracles(conc, budget, trace, status, late, n_pending):
             bad.append(('exactly-once', f'jobs sid={missing} were started but their results never delivered'))
     if status[0] == 'raised' and err_pos is None:
         bad.append(('progress', f'collect_async raised {status[1:]} although no job failed'))
+    if status[0] == 'raised' and err_pos is not None:
+        # the error of a submitted job reaches the submitter: what the caller receives is the very exception object the
+        # sampler raised for one of the jobs that failed - nothing else, whatever else completed in the same turn
+        failed = {sid: o[1] for sid, (_, o) in done_at.items() if o[0] == 'err'}
+        lo = hi = err_pos
+        while lo > 0 and trace[lo - 1][0] == 'done':
+            lo -= 1
+        while hi + 1 < len(trace) and trace[hi + 1][0] == 'done':
+            hi += 1
+        same_turn = [(ev[1], ev[2]) for ev in trace[lo:hi + 1]]
+        first = min(failed, key=lambda x: done_at[x][0])
+        if status[2] is None or status[2] not in failed:
+            bad.append(('foreign-error', f'the caller received {status[3]} instead of the failed job\'s own exception '
+                                         f'(job sid={first} failed with job-error-{failed[first]}; completed in that scheduler '
+                                         f'turn, in order: {same_turn})'))
     if status[0] in ('halted', 'waiting'):
         capacity = take - result < conc and (budget is None or charged < budget)
         if capacity and conc > 0 and last_ask != []:
@@ -363,10 +437,74 @@ def menu_batches(k):
     return m
 
 
-def collector_case(cirq, conc, budget, oracle, chooser, shape_bits=0, pauli=None):
-    trace, status, sched, late, n_pending, energy = run_collector(cirq, conc, budget, oracle, chooser, shape_bits, pauli)
+def collector_case(cirq, conc, budget, oracle, chooser, shape_bits=0, pauli=None, entry='async'):
+    trace, status, sched, late, n_pending, energy = run_collector(cirq, conc, budget, oracle, chooser, shape_bits, pauli, entry)
     return dict(conc=conc, budget=budget, oracle=oracle, sched=sched, trace=trace, status=status, late=late,
-                n_pending=n_pending, energy=energy, pauli=pauli)
+                n_pending=n_pending, energy=energy, pauli=pauli, entry=entry)
+
+
+def sid_chooser(groups, outcomes):
+    """Chooser for a schedule written by job: groups = scheduler turns, each a list of sids (start order) completing together,
+    in that order; outcomes[sid] = ('ok', payload) | ('err', eid). A sid that is not in flight (any more / yet) is skipped."""
+    it = iter(groups)
+    completed = set()
+
+    def choose(k):
+        g = next(it, None)
+        if g is None:
+            return None
+        pend = [x for x in range(k + len(completed)) if x not in completed]     # sids are handed out in start order
+        b = []
+        for sid in g:
+            if sid in pend:
+                b.append((pend.index(sid), outcomes[sid]))
+                pend.remove(sid)
+                completed.add(sid)
+        return b
+    return choose
+
+
+def _ordered_partitions(seq):
+    """every way of cutting the sequence into consecutive non-empty groups"""
+    for cuts in itertools.product((False, True), repeat=len(seq) - 1):
+        groups, cur = [], [seq[0]]
+        for x, cut in zip(seq[1:], cuts):
+            if cut:
+                groups.append(cur)
+                cur = [x]
+            else:
+                cur.append(x)
+        groups.append(cur)
+        yield groups
+
+
+def failure_turn_grid(quick):
+    """Several jobs in flight, some of them failing: every assignment of success / failure to the jobs, every completion
+    order and every grouping of the completions into scheduler turns (jobs of one group complete before the loop or any job
+    coroutine runs again). Schedules are cut after the first turn that contains a failure (nothing runs after it) and
+    deduplicated. Yields (conc, budget, oracle, groups, outcomes)."""
+    configs = [(2, None, [[(0, 1), (1, 1)]]),                          # both from one next_job answer
+               (3, None, [[(0, 1)], [(1, 1)], [(2, 1)]]),             # three jobs, one per answer, all in flight
+               (2, None, [[(0, 2), (1, 2), (2, 2)]]),                 # the third starts when the first result was consumed
+               (3, 7, [[(0, 2), (1, 2)], [(2, 2), (3, 2)]])]          # budget admits four, at most three in flight
+    if not quick:
+        configs += [(4, None, [[(0, 1), (1, 1)], [(2, 1), (3, 1)]]), (2, None, [[(0, 1)], [(1, 1)], [(2, 1)], [(3, 1)]])]
+    for conc, budget, oracle in configs:
+        n = sum(len(a) for a in oracle)
+        seen = set()
+        for fails in itertools.product((False, True), repeat=n):
+            outcomes = [('err', 40 + sid) if f else ('ok', 600 + sid) for sid, f in enumerate(fails)]
+            for order in itertools.permutations(range(n)):
+                for groups in _ordered_partitions(list(order)):
+                    cut = []
+                    for g in groups:
+                        cut.append(g)
+                        if any(fails[sid] for sid in g):
+                            break
+                    key = (fails, tuple(map(tuple, cut)))
+                    if key not in seen:
+                        seen.add(key)
+                        yield conc, budget, oracle, cut, outcomes
 
 
 def enumerate_collector(cirq, conc, budget, oracle, menu_fn, limit):
@@ -417,7 +555,8 @@ def random_collector_case(cirq, rng):
             if kk == 0:
                 break
         return b
-    return collector_case(cirq, conc, budget, oracle, chooser, shape_bits=rng.getrandbits(16))
+    return collector_case(cirq, conc, budget, oracle, chooser, shape_bits=rng.getrandbits(16),
+                          entry='sync' if rng.random() < 0.2 else 'async')
 
 
 def collector_stream(ctx, cirq):
@@ -452,6 +591,13 @@ def collector_stream(ctx, cirq):
         c = random_collector_case(cirq, rng)
         c['stream'] = 'collector_random'
         cases.append(c)
+    # (2b) fixed grid, every seed: failures among several jobs in flight x completion order x grouping into scheduler turns,
+    #      through collect_async (hand-ticked scheduler) and through collect() (duet.run)
+    for conc, budget, orc, groups, outcomes in failure_turn_grid(ctx.tier == 'quick'):
+        for entry in ('async', 'sync'):
+            c = collector_case(cirq, conc, budget, orc, sid_chooser(groups, outcomes), entry=entry)
+            c['stream'] = 'collector_failure_turns'
+            cases.append(c)
     # (3) the real PauliSumCollector as the (adaptive) source of jobs, random completion orders
     for i in range(24 if ctx.tier == 'quick' else 400):
         pauli = dict(samples_per_term=rng.choice([3, 5, 8]), max_samples_per_job=rng.choice([1, 2, 3, 100]))
@@ -476,13 +622,16 @@ def collector_stream(ctx, cirq):
                           'some term received no / foreign results', dict(kind='collector_paulisum', conc=conc, pauli=pauli, sched=c['sched']))
     for c in cases:
         ntake = sum(1 for e in c['trace'] if e[0] == 'take')
-        ctx.count(c['stream'], (c['conc'], c['budget'], c['oracle'], c['sched']), nontrivial=ntake >= 2,
-                  sample=dict(concurrency=c['conc'], budget=c['budget'], oracle=c['oracle'], schedule=c['sched'],
+        ctx.count(c['stream'], (c['entry'], c['conc'], c['budget'], c['oracle'], c['sched']), nontrivial=ntake >= 2,
+                  sample=dict(entry=c['entry'], concurrency=c['conc'], budget=c['budget'], oracle=c['oracle'], schedule=c['sched'],
                               trace=c['trace'], status=c['status']))
+        fn = 'collect' if c['entry'] == 'sync' else 'collect_async'
         for kind, what in collector_oracles(c['conc'], c['budget'], c['trace'], c['status'], c['late'], c['n_pending']):
-            ctx.violation(f'collector:{kind}', f'collect_async(concurrency={c["conc"]}, max_total_samples={c["budget"]}): {what}',
-                          dict(kind='collector', conc=c['conc'], budget=c['budget'], oracle=c['oracle'], sched=c['sched'],
-                               failed=kind))
+            ctx.violation(f'collector:{kind}', f'{fn}(concurrency={c["conc"]}, max_total_samples={c["budget"]}): {what} [next_job '
+                          f'answers (tag, repetitions): {c["oracle"]}; completions per scheduler turn (index in flight, outcome): '
+                          f'{c["sched"]}]',
+                          dict(kind='collector', entry=c['entry'], conc=c['conc'], budget=c['budget'], oracle=c['oracle'],
+                               sched=c['sched'], failed=kind))
     for idx in collector_compare(ctx, 'collector', cases):
         c = cases[idx]
         ctx.mark_broken('correspondence:collector',
@@ -494,7 +643,7 @@ def replay_collector(cirq, data):
     sched = [[(n, tuple(o)) for n, o in b] for b in data['sched']]
     it = iter(sched)
     c = collector_case(cirq, data['conc'], data['budget'], [[tuple(j) for j in a] for a in data['oracle']],
-                       lambda k: next(it, None))
+                       lambda k: next(it, None), entry=data.get('entry', 'async'))
     bad = collector_oracles(c['conc'], c['budget'], c['trace'], c['status'], c['late'], c['n_pending'])
     print('trace:', c['trace'])
     print('status:', c['status'], 'oracle failures:', bad)
@@ -592,6 +741,7 @@ class StreamRun:
         self.reqs, self.replies, self.dones, self.cancels, self.subs = [], [], [], [], []
         self.anomalies = []
         self.live_exc = {}    # step -> exception object published at that step
+        self.reorder = None
         self.manager = sm.StreamManager(FakeClient())
 
     # ---- the loop ----
@@ -753,24 +903,46 @@ class StreamRun:
                     # fulfilled the waiter and before the execution coroutine resumes
                     self.turn()
                     self.futs[e].cancel()
-        elif k == 'Break':
+        elif k in ('Break', 'BreakCancel'):
             exc = self.exn_classes[ev[1]]('stream broke')
             self.live_exc[self.step] = exc
             loop.call_soon(self.streams[-1].put_nowait, exc) if self.streams else None
             for w in self.wire:
                 w[5] = False
             self.pending.clear()
+            if k == 'BreakCancel' and self.streams and ev[2] < len(self.futs) and not self.futs[ev[2]].done():
+                # as for RespondCancel: the cancellation runs after publish_exception() has failed the waiters and before
+                # the execution coroutines resume
+                self.turn()
+                self.futs[ev[2]].cancel()
         elif k == 'Cancel':
             if ev[1] < len(self.futs):
                 self.futs[ev[1]].cancel()
         elif k == 'Stop':
+            # ('Stop',) | ('Stop', e, 'before'|'after'): submit e is cancelled by its submitter in the same loop turn, just
+            # before / after stop() is called
+            if len(ev) == 3:
+                self.reorder = [self.owner.get(int(key)) for key in self.manager._response_demux._subscribers.keys()
+                                if key.isdigit()]
+            if len(ev) == 3 and ev[2] == 'before' and ev[1] < len(self.futs):
+                self.futs[ev[1]].cancel()
             self.manager.stop()
+            if len(ev) == 3 and ev[2] == 'after' and ev[1] < len(self.futs):
+                self.futs[ev[1]].cancel()
             for w in self.wire:
                 w[5] = False
             self.pending.clear()
         else:
             raise ValueError(ev)
         self.settle()
+        if self.reorder is not None:
+            # stop() and one submitter's own cancel() in the same turn: everybody ends cancelled in this step; which future
+            # is marked first is not part of the statement, the step's completions are recorded in subscription order
+            order = self.reorder
+            now = [d for d in self.dones if d[0] == self.step]
+            now.sort(key=lambda d: order.index(d[1]) if d[1] in order else len(order))
+            self.dones = [d for d in self.dones if d[0] != self.step] + now
+            self.reorder = None
         subs = []
         for key in self.manager._response_demux._subscribers.keys():
             try:
@@ -840,13 +1012,16 @@ def stream_step_oracles(run, ev, before):
     step = run.step
     done_now = {e: o for s, e, o in run.dones if s == step}
     reqs_now = [(e, mid, kind) for s, e, mid, kind in run.reqs if s == step]
-    if ev[0] == 'Break' and run.streams:
+    victim = ev[2] if ev[0] == 'BreakCancel' else None
+    if ev[0] in ('Break', 'BreakCancel') and run.streams:
         exc = run.live_exc.get(step)
         import google.api_core.exceptions as gexc
         retry = isinstance(exc, gexc.GoogleAPICallError) and run.sm._is_retryable_error(exc)
         # whatever the code's list says, these are never transient: client errors and non-API exceptions must surface
         must_surface = not isinstance(exc, gexc.GoogleAPICallError) or isinstance(exc, gexc.ClientError)
         for e in before:
+            if e == victim:
+                continue
             o = done_now.get(e)
             if retry and not must_surface:
                 if e in done_now or not any(x == e for x, _, kind in reqs_now):
@@ -858,8 +1033,30 @@ def stream_step_oracles(run, ev, before):
         rpcs = [x for s, x in run.cancels if s == step]
         if rpcs != [ev[1]] or done_now.get(ev[1], ('?',))[0] != 'cancelled':
             bad.append(('cancel', f'cancelling submit {ev[1]}: cancel_quantum_job calls for executions {rpcs}, future {done_now.get(ev[1])}'))
-    if ev[0] not in ('Cancel', 'RespondCancel', 'Stop') and any(s == step for s, _ in run.cancels):
+    if ev[0] not in ('Cancel', 'RespondCancel', 'BreakCancel', 'Stop') and any(s == step for s, _ in run.cancels):
         bad.append(('cancel', f'cancel_quantum_job sent at step {step} ({ev}) although nothing was cancelled'))
+    # cancellation cancels the remote job: whenever a submit future ends cancelled - by its submitter's cancel() at any
+    # point (idle, while the server's reply or a stream failure is being delivered to it) or by stop() - a CancelQuantumJob
+    # for its job reaches the server; and the server is asked to cancel only jobs whose submit ended cancelled
+    rpcs_now = [x for s, x in run.cancels if s == step]
+    withdrawn = (list(before) if ev[0] == 'Stop' else [victim] if ev[0] == 'BreakCancel' and run.streams else
+                 [run.delivered[2]] if ev[0] == 'RespondCancel' and run.delivered is not None and run.delivered[3] else [])
+    for e in withdrawn:
+        if e in before and done_now.get(e, ('?',))[0] != 'cancelled':
+            bad.append(('cancel', f'submit {e} was running and was withdrawn by the event {ev} at step {step}, but its future did not end '
+                                  f'cancelled (got {done_now.get(e)})'))
+    for e, o in done_now.items():
+        if o[0] == 'cancelled' and e not in rpcs_now:
+            dl = run.delivered
+            racing = (f' while the reply {dl[1]} to its message {dl[0]} was being delivered' if ev[0] == 'RespondCancel' and dl is not None
+                      else f' while the stream failure {ev[1]} was being delivered' if ev[0] == 'BreakCancel' else '')
+            bad.append(('cancel-remote', f'the future of submit {e} ended cancelled at step {step} (event {ev}{racing}) but no '
+                                         f'CancelQuantumJob for its job j{e} reached the server (cancel RPCs at this step: for jobs of '
+                                         f'submits {rpcs_now}): the remote job keeps running'))
+    for e in rpcs_now:
+        if done_now.get(e, ('?',))[0] != 'cancelled':
+            bad.append(('cancel-remote', f'CancelQuantumJob for job j{e} was sent at step {step} (event {ev}) although submit {e} did '
+                                         f'not end cancelled (it got {done_now.get(e)})'))
     # a finished execution got its own job's result
     for e, o in done_now.items():
         if o[0] in ('result', 'job') and o[1] != e:
@@ -875,9 +1072,10 @@ def stream_step_oracles(run, ev, before):
         elif o[0] == 'stream':
             ok = ev[0] == 'Respond' and dl is not None and dl[2] == e and tuple(dl[1]) == ('err', o[1])
         elif o[0] == 'exn':
-            ok = ev[0] == 'Break' and o[2] == id(run.live_exc.get(step))
+            ok = ev[0] in ('Break', 'BreakCancel') and e != victim and o[2] == id(run.live_exc.get(step))
         elif o[0] == 'cancelled':
-            ok = (ev[0] == 'Cancel' and ev[1] == e) or ev[0] == 'Stop' or (ev[0] == 'RespondCancel' and dl is not None and dl[2] == e)
+            ok = ((ev[0] == 'Cancel' and ev[1] == e) or ev[0] == 'Stop' or (ev[0] == 'RespondCancel' and dl is not None and dl[2] == e)
+                  or (ev[0] == 'BreakCancel' and e == victim))
         else:
             ok = False
         if not ok:
@@ -936,8 +1134,10 @@ def _lit_event(ev):
         return f'(RejectReq {ev[1]} {ev[2]})'
     if k == 'Break':
         return f'(Break X{ev[1]})'
+    if k == 'BreakCancel':
+        return f'(BreakCancel X{ev[1]} {ev[2]})'
     if k == 'Stop':
-        return 'Stop'
+        return 'Stop'       # a simultaneous cancel() of one submitter changes nothing: stop() cancels everybody
     return f'({k} {ev[1]})'
 
 
@@ -1022,8 +1222,12 @@ def random_stream_chooser(rng, max_submits, length):
             opts += [('Break', rng.choice(FATAL))]
         if ne:
             opts += [('Cancel', rng.randrange(ne))]
+        if ne and run.streams:
+            opts += [('BreakCancel', rng.choice(RETRYABLE * 2 + FATAL), rng.randrange(ne))]
         if rng.random() < 0.03:
             opts += [('Stop',)]
+        if ne and rng.random() < 0.03:
+            opts += [('Stop', rng.randrange(ne), rng.choice(['before', 'after']))]
         if rng.random() < 0.05:
             opts += [rng.choice([('Process', nw + 1), ('Respond', npend), ('Cancel', ne + 2)])]   # no-ops
         return rng.choice(opts) if opts else None
@@ -1135,7 +1339,8 @@ def fault_case(mods, rng, sprog, sjob, faults):
 def symbolic_chooser(ops):
     """Events named by the execution they concern; the positions on the wire / among the responses are looked up in the run.
 
-    ('submit', p) ('process', e) ('reject', e, code) ('respond', e) ('respondcancel', e) ('cancel', e) ('break', X) ('stop',).
+    ('submit', p) ('process', e) ('reject', e, code) ('respond', e) ('respondcancel', e) ('cancel', e) ('break', X)
+    ('breakcancel', X, e) ('stop',) ('stop', e, 'before'|'after').
     process/reject address the live (current stream) request of e, respond/respondcancel the outstanding response to e."""
     it = iter(ops)
 
@@ -1156,8 +1361,10 @@ def symbolic_chooser(ops):
                 return ('Cancel', op[1])
             elif k == 'break':
                 return ('Break', op[1])
+            elif k == 'breakcancel':
+                return ('BreakCancel', op[1], op[2])
             elif k == 'stop':
-                return ('Stop',)
+                return ('Stop',) if len(op) == 1 else ('Stop', op[1], op[2])
             # an op whose target does not exist (any more) is skipped
         return None
     return choose
@@ -1177,9 +1384,11 @@ def cancel_race_grid(quick):
                 for pre in ('none', 'break', 'handled+break'):
                     for timing in ('cancel,process,respond', 'process,cancel,respond', 'process,respondcancel',
                                    'process,cancel,cancel,respond'):
-                        for reply in ('result', 'job', 'JOB_ALREADY_EXISTS', 'PROGRAM_DOES_NOT_EXIST', 'INTERNAL'):
+                        for reply in ('result', 'job', 'JOB_ALREADY_EXISTS', 'PROGRAM_ALREADY_EXISTS', 'PROGRAM_DOES_NOT_EXIST',
+                                      'INTERNAL'):
                             for others in ('untouched', 'handled'):
-                                if quick and n == 3 and (timing.count('cancel,') == 2 or reply == 'PROGRAM_DOES_NOT_EXIST'):
+                                if quick and n == 3 and (timing.count('cancel,') == 2 or
+                                                         reply in ('PROGRAM_DOES_NOT_EXIST', 'PROGRAM_ALREADY_EXISTS')):
                                     continue
                                 ops = [('submit', 0 if shared else e) for e in range(n)]
                                 if pre == 'handled+break':
@@ -1195,6 +1404,34 @@ def cancel_race_grid(quick):
                                         ops.append((t, v))
                                 out.append((dict(n=n, victim=v, shared=shared, pre=pre, timing=timing, reply=reply, others=others),
                                             [v] if reply == 'job' else [], ops))
+    # the cancel arrives while a failure of the stream is being delivered (retryable: the client would have re-sent its
+    # request; fatal: it would have raised), or together with stop(), or stop() alone; the victim's request untouched, handled
+    # (response outstanding), answered with a code it would retry on
+    for n in (2, 3):
+        for v in range(n):
+            for shared in (False, True):
+                for pre in ('none', 'break', 'handled+break'):
+                    for others in ('untouched', 'handled'):
+                        for mine in ('untouched', 'handled', 'PROGRAM_ALREADY_EXISTS'):
+                            for how in ([('breakcancel', x, v) for x in ('ServiceUnavailable', 'InternalServerError', 'NotFound',
+                                                                         'RuntimeError')]
+                                        + [('stop',), ('stop', v, 'before'), ('stop', v, 'after')]):
+                                if quick and n == 3 and (how[1:2] in (('InternalServerError',), ('RuntimeError',)) or
+                                                         (pre == 'handled+break' and mine != 'untouched')):
+                                    continue
+                                ops = [('submit', 0 if shared else e) for e in range(n)]
+                                if pre == 'handled+break':
+                                    ops += [('process', e) for e in range(n)]
+                                if pre != 'none':
+                                    ops += [('break', 'ServiceUnavailable')]
+                                if others == 'handled':
+                                    ops += [('process', e) for e in range(n) if e != v]
+                                if mine != 'untouched':
+                                    ops.append(('process', v) if mine == 'handled' else ('reject', v, mine))
+                                ops.append(how)
+                                if how[0] == 'stop':          # the manager is usable again afterwards
+                                    ops += [('submit', 0), ('process', n), ('respond', n)]
+                                out.append((dict(n=n, victim=v, shared=shared, pre=pre, others=others, mine=mine, how=how), [], ops))
     # the same races ended by stop() instead of a single cancel, and two victims
     for pre in ('none', 'break'):
         for tail in ([('process', 0), ('stop',), ('submit', 1), ('submit', 1)],
@@ -1278,6 +1515,13 @@ def stream_streams(ctx, mods):
             c['stream'] = 'stream_enum'
         mcases += cs
     ctx.cov['stream_enumeration_complete'] = complete
+    # (C) cancellation racing with the server's reply while other jobs are in flight (fixed grid, every seed), then the
+    #     undisturbed server: everybody else must still get their own result
+    for params, fails, ops in cancel_race_grid(quick):
+        c = run_stream_case(mods, [], [], fails, symbolic_chooser(ops), drain=True)
+        c['stream'] = 'stream_cancel_race'
+        c['params'] = params
+        mcases.append(c)
     for _ in range(500 if quick else 8000):
         pre_progs = [p for p in (0, 1) if rng.random() < 0.25]
         pre_jobs = [e for e in (0, 1, 2) if rng.random() < 0.12]
@@ -1286,15 +1530,8 @@ def stream_streams(ctx, mods):
                             drain=rng.random() < 0.5)
         c['stream'] = 'stream_random'
         mcases.append(c)
-    # (C) cancellation racing with the server's reply while other jobs are in flight (fixed grid, every seed), then the
-    #     undisturbed server: everybody else must still get their own result
-    for params, fails, ops in cancel_race_grid(quick):
-        c = run_stream_case(mods, [], [], fails, symbolic_chooser(ops), drain=True)
-        c['stream'] = 'stream_cancel_race'
-        c['params'] = params
-        mcases.append(c)
     for c in fcases + mcases:
-        nfault = sum(1 for e in c['events'] if e[0] in ('Break', 'RejectReq', 'Cancel', 'RespondCancel', 'Stop'))
+        nfault = sum(1 for e in c['events'] if e[0] in ('Break', 'BreakCancel', 'RejectReq', 'Cancel', 'RespondCancel', 'Stop'))
         nontrivial = (len(c['faults']) >= 1) if 'faults' in c else (len(c['reqs']) >= 2 and nfault >= 1)
         ctx.count(c['stream'], (c['pre_progs'], c['pre_jobs'], c['fails'], c['events']), nontrivial=nontrivial,
                   sample=dict(pre_programs=c['pre_progs'], pre_jobs=c['pre_jobs'], events=c['events'], requests=c['reqs'],
@@ -1356,13 +1593,25 @@ def run(ctx):
                 'is under way and 1-2 other jobs are in flight: {2,3 jobs} x victim x shared/own program x {no break, retryable '
                 'break, handled then break} x {cancel before / after the server handled the request, during delivery, twice} x '
                 'reply {result, failed job, JOB_ALREADY_EXISTS, PROGRAM_DOES_NOT_EXIST, INTERNAL} x others {untouched, handled}, '
-                'plus stop() and two-victim variants, each followed by the undisturbed server. Every completion of a submit '
+                'plus stop() and two-victim variants; and the cancel arriving while a stream failure is delivered to the victim '
+                '(BreakCancel: 2 retryable + 2 fatal exceptions) or together with / replaced by stop() (cancel just before / after '
+                'stop(), stop() alone) x victim\'s request {untouched, handled, answered PROGRAM_ALREADY_EXISTS} x the same '
+                'surroundings; each followed by the undisturbed server. Every completion of a submit '
                 'future is judged step by step: it must be caused by its own response / its stream\'s failure / its own '
-                'cancellation / stop(). distinct by canonical input')
+                'cancellation / stop(); every future that ends cancelled must have its CancelQuantumJob at the server in the same '
+                'step and vice versa. collector (2b) fixed grid, every seed: 2-4 jobs in flight x every success/failure assignment x '
+                'every completion order x every grouping of the completions into scheduler turns (cut after the first failing '
+                'turn), through collect_async and through collect(); the caller must receive the very exception object of a '
+                'failed job. distinct by canonical input')
     ctx.assumptions += ['duet scheduler ticked by hand: completions are applied only when no task is ready (quiescent points)',
                         'the fake Sampler returns duet futures completed by the driver; results are integers',
                         'StreamManager runs on an asyncio loop that only the driver turns (AsyncioExecutor.submit unchanged, no thread); '
                         'every event is followed by running the loop until no callback is ready',
+                        'a cancel() racing with a reply / a stream failure is issued one loop turn after the message was put on the '
+                        'stream (after publish / publish_exception, before the execution coroutine resumes); when stop() and a cancel() '
+                        'fall into one turn the completions of that step are compared in subscription order',
+                        'Collector.collect() is driven through duet.run with duet.impl.Scheduler replaced by a subclass that completes '
+                        'the next batch whenever no task is ready',
                         'fake Quantum Engine: creation refused when the program/job exists, GetQuantumResult answers '
                         'JOB_DOES_NOT_EXIST whenever the job is missing; StreamError.message carries the code name',
                         'the fake stream keeps draining the old request iterator until the None sentinel (as the upstream test fake '
